@@ -125,8 +125,8 @@ func (o *Outcome) AddExplore(c *chain.Chain, stats []*explore.Stats, found []exp
 		trans += s.Transitions
 		reval += s.Revalidated
 		nontriv += s.Succeeded
-		if !s.Exhaustive || len(s.Vacuity) > 0 {
-			exhaustive = false
+		if !s.Exhaustive {
+			exhaustive = false // a depth or time cap was hit; vacuity warnings are listed separately
 		}
 		for _, v := range s.Vacuity {
 			vac = append(vac, s.Scenario+"/"+s.Seed+": "+v)
